@@ -25,9 +25,9 @@ tv_shipped = partial(e9.rule_translation, which=("main", "nonhermitian"))
 diag_solver_real = partial(e7b.rule_diagonal_solver, complex_energies=False)  # Hermitian H_0: real energies
 start_data_shipped = partial(e9.rule_start_data, all_programs=False)
 shared_check_memo = partial(e7b.rule_shared_eigenvalue_check, divisions=False)  # C10 / C11: only the memo of checked pairs
-helpers_inputs = partial(e11.rule_helpers, sections=("subspaces", "convert_if_zero", "unpack_blocks", "extract_diagonal"))  # C14
+helpers_inputs = partial(e11.rule_helpers, sections=("subspaces", "convert_if_zero", "unpack_blocks", "extract_diagonal", "is_diagonal"))  # C14
 helpers_solvers = partial(e11.rule_helpers, sections=("preprocess_sylvester", "group_close", "aslinearoperator", "extract_diagonal"))  # C16
-helpers_rejections = partial(e11.rule_helpers, sections=("subspaces", "preprocess_sylvester"))  # C20
+helpers_rejections = partial(e11.rule_helpers, sections=("subspaces", "preprocess_sylvester", "is_diagonal"))  # C20
 lossless_series = partial(e4.rule_value_preserving, modules=("series",))  # C18
 lossless_solvers = partial(e4.rule_value_preserving, modules=("block_diagonalization", "linalg", "second_quantization", "kpm"))  # C16
 lossless_inputs = partial(e4.rule_value_preserving, modules=("block_diagonalization", "series"))  # C14
@@ -269,7 +269,10 @@ prop(
     rules=[e6.rule_projector_call_sites, e6.rule_subspaces_from_indices, helpers_inputs, e2b.rule_taylor, e2b.rule_order_preserving_evals, e2b.rule_key_normalisation, e2b.rule_symbol_order,
            e5.rule_total_callbacks, e2c.rule_adjoint_fill, lossless_inputs,
            # `dense, sparse or symbolic values`: the selection closures have one element-wise branch per value type
-           e1b.rule_projection_pairs],
+           e1b.rule_projection_pairs,
+           # an incomplete eigenbasis is completed by the complement projector: its actions are part of "the same result for every
+           # way of designating the blocks"
+           e6.rule_projector],
     explanation=(
         "Narrow claim: the selection closures have one element-wise branch per value type (dense, scipy.sparse, sympy); "
         "operator_to_BlockSeries returns L_i† A R_j (projector families, argument order of every "
